@@ -2,7 +2,7 @@
 from vf.driver import contract_units
 
 LEVEL = "other"
-MODULES = ["contracts.c_access", "contracts.c_engine", "contracts.c_request"]
+MODULES = ["contracts.c_access", "contracts.c_engine", "contracts.c_request", "contracts.c_attributes"]
 EXPLANATION = ("No crash is executed.  Decided here: the discipline from which all-or-nothing follows GIVEN "
                "that one SQLAlchemy session commit is one atomic, durable SQLite transaction: on every "
                "path of every state-changing handler under contract no commit lies between two persistent "
@@ -13,5 +13,10 @@ ASSUMPTIONS = ["one SQLAlchemy session.commit() = one atomic, durable SQLite tra
                "schema creation at start-up (create_all) is idempotent"]
 
 
+# the attribute handlers are proved for every protocol version x stored class under C15; here the
+# quick tier re-proves them on two slices (KMIP 1.4 and 2.0, first stored class), the thorough tier on all
+QUICK_SLICES = {'protocol-version': [4, 5], 'managed-class': [0]}
+
+
 def units(ctx):
-    return contract_units("C09", MODULES, ctx)
+    return contract_units("C09", MODULES, ctx, slices=QUICK_SLICES if ctx["tier"] == "quick" else None)
